@@ -158,6 +158,7 @@ pub struct World {
     pub labels: Cell<u64>,
     pub next_clone_id: Cell<Oid>,
     pub panic_armed: Cell<bool>,
+    pub panic_fired: Cell<bool>,
     pub collected_once: Cell<bool>,
     pub destroyed_this_op: RefCell<Vec<Oid>>,
     pub dact_depth: Cell<u32>,
@@ -189,6 +190,7 @@ pub fn install_world(cfg: Cfg) {
             labels: Cell::new(0),
             next_clone_id: Cell::new(0),
             panic_armed: Cell::new(true),
+            panic_fired: Cell::new(false),
             collected_once: Cell::new(false),
             destroyed_this_op: RefCell::new(vec![]),
             dact_depth: Cell::new(0),
